@@ -40,9 +40,9 @@ impl Sub for Crash {
     }
     fn cases(&self, tier: Tier) -> u32 {
         if self.orphans {
-            tier.pick(10, 600)
+            tier.pick(10, 100)
         } else {
-            tier.pick(64, 1600)
+            tier.pick(64, 250)
         }
     }
     fn max_shrink_iters(&self) -> u32 {
